@@ -6,6 +6,7 @@ package sunlight
 //@ pure func be40(s bytes) int = s[0]*4294967296 + s[1]*16777216 + s[2]*65536 + s[3]*256 + s[4]
 
 //@ func sunlight.readUint40 nopanic props C10
+//@   requires s != nil && out != nil
 //@   ensures [C10] ok: ret <==> len(old(*s)) >= 5
 //@   ensures [C10] value: ret ==> *out == be40(old(*s)) && *s == old(*s)[5:]
 //@   ensures [C10] range: ret ==> 0 <= *out && *out < 1099511627776
@@ -14,11 +15,62 @@ package sunlight
 //@ func sunlight.NewRFC6962Verifier props C11
 //@   defines ret1 == nil ==> ret0 != nil && isRFCVerifier(ret0, name, key)
 
+// ---- C11: the note verifier's accept decision, as a function of (msg, sig) only
+//@ pure func rfcSigAccepted(name string, key Ref, msg bytes, sig bytes) bool = ckptParses(string(msg)) && ckptOf(string(msg)).Origin == name && ckptOf(string(msg)).Extension == "" && len(sig) >= 12 && sig[8] == 4 && len(sig) == 12 + be16(sig[10:12]) && ctAccepts(key, sthInput(0, ckptOf(string(msg)).N, be64(sig), ckptOf(string(msg)).Hash), sig[8], sig[9], sig[12:])
+//@ func sunlight.NewRFC6962Verifier$1 nopanic props C11
+//@   returns [C11] accepts-only-what-the-independent-verifier-accepts: ret ==> rfcSigAccepted(name, key, msg, sig)
+//@   returns [C11] accepts-every-well-formed-verifying-signature: rfcSigAccepted(name, key, msg, sig) ==> ret
+
 //@ pure func sigTimestamp(sig note.Signature) int
 //@ func sunlight.RFC6962SignatureTimestamp props C11 C20
 //@   defines ret1 == nil ==> ret0 == sigTimestamp(sig)
 
-//@ func sunlight.ReadTileLeaf props C08 C10
+//@ func sunlight.ReadTileLeaf nopanic props C08 C10 C12
 //@   defines ret2 == nil ==> ret0 != nil && *ret0 == parsedLeaf(tile) && ret1 == leafRest(tile)
+//@   returns [C10,C12] refuses-archival-leaves: ret2 == nil ==> (ret0 != nil && !ret0.RFC6962ArchivalLeaf)
 //@ func sunlight.(*LogEntry).MerkleTreeLeaf props C08 C10
 //@   defines ret == mtlOf(*e)
+
+// ---- C10: extensions
+
+//@ pure func u40(v int) bytes = supd(supd(supd(supd(supd(zeros(5), 0, (v / 4294967296) % 256), 1, (v / 16777216) % 256), 2, (v / 65536) % 256), 3, (v / 256) % 256), 4, v % 256)
+//@ pure func canonicalExt(x bytes) bool = len(x) == 8 && x[0] == 0 && x[1] == 0 && x[2] == 5
+
+//@ func sunlight.addUint40 props C10
+//@   requires b != nil && 0 <= v
+//@   modifies b.gout
+//@   ensures [C10] appends-five-big-endian-bytes: b.gout == old(b.gout) + u40(v)
+
+//@ func sunlight.MarshalExtensions nopanic props C10
+//@   ensures [C10] refuses-out-of-range: (e.LeafIndex < 0 || e.LeafIndex >= 1099511627776) ==> ret1 != nil
+//@   ensures [C10] canonical-encoding: (0 <= e.LeafIndex && e.LeafIndex < 1099511627776) ==> (ret1 == nil && canonicalExt(ret0) && be40(ret0[3:8]) == e.LeafIndex)
+
+//@ func sunlight.ParseExtensions nopanic props C10
+//@   invariant "for !b.Empty()" canonical-first: canonicalExt(extensions) ==> b == extensions
+//@   ensures [C10] decodes-canonical-encoding: canonicalExt(extensions) ==> (ret1 == nil && ret0.LeafIndex == be40(extensions[3:8]))
+//@   ensures [C10] index-in-range: ret1 == nil ==> (0 <= ret0.LeafIndex && ret0.LeafIndex < 1099511627776)
+
+// ---- C10: tile leaves and tile paths
+
+//@ func sunlight.readTileLeaf nopanic props C10 C12
+//@   call cryptobyte.(*String).ReadUint16LengthPrefixed bind ext0 = *c_out when c_out == &extensions
+//@   call cryptobyte.(*String).ReadUint64 bind tile0 = old(*c_recv)
+//@   invariant "for !fingerprints.Empty()" fingerprints-progress: len(fingerprints) >= 0
+//@   returns [C10,C12] archival-iff-no-extension: ret2 == nil ==> (ret0 != nil && (ret0.RFC6962ArchivalLeaf <==> len(ext0) == 0))
+//@   returns [C10,C12] strict-single-canonical-extension: (ret2 == nil && !ret0.RFC6962ArchivalLeaf) ==> (canonicalExt(ext0) && ret0.LeafIndex == be40(ext0[3:8]))
+//@   returns [C10,C12] timestamp-field: ret2 == nil ==> (ret0.Timestamp == be64(tile) && 0 <= ret0.Timestamp)
+//@   returns [C10,C12] entry-type-field: ret2 == nil ==> (len(tile) >= 10 && (ret0.IsPrecert <==> be16(tile[8:10]) == 1) && (!ret0.IsPrecert <==> be16(tile[8:10]) == 0))
+//@   ensures [C10,C12] result-nonnil: ret2 == nil ==> ret0 != nil
+
+//@ func sunlight.ParseTilePath props C10
+//@   call tlog.ParseTilePath requires [C10] prefix-exactly-replaced: (c_path == "tile/8/data/" + rest__1 && path == "tile/names/" + rest__1) || (c_path == "tile/8/" + rest__2 && path == "tile/" + rest__2)
+//@   returns [C10] names-tiles-are-level-minus-two: (ret1 == nil && hasPrefix(path, "tile/names/")) ==> ret0.L == -2
+
+//@ func sunlight.TilePath props C10
+//@   returns [C10] names-path: old(t).L == -2 ==> ret == "tile/names/" + trimPrefix(tlogTilePath(tileWithL(old(t), -1)), "tile/8/data/")
+//@   returns [C10] other-path: old(t).L != -2 ==> ret == "tile/" + trimPrefix(tlogTilePath(old(t)), "tile/8/")
+//@ pure func tlogTilePath(t tlog.Tile) string
+//@ pure func tileWithL(t tlog.Tile, l int) tlog.Tile
+//@ axiom tileWithL-def: forall t tlog.Tile, l int {tileWithL(t, l)} :: tileWithL(t, l).H == t.H && tileWithL(t, l).L == l && tileWithL(t, l).N == t.N && tileWithL(t, l).W == t.W
+//@ assume func tlog.Tile.Path
+//@   ensures ret == tlogTilePath(recv)
